@@ -35,7 +35,7 @@ from .. import facts as F
 
 PROP = 'C01'
 from . import lemmas as _lemmas
-LEMMAS = [_lemmas.PROTOCOL, _lemmas.SOLVE]
+LEMMAS = [_lemmas.PROTOCOL, _lemmas.SOLVE, _lemmas.PERIODIC]
 RULES = {
     'R0': 'csr_array data/row/col blocks have identical ravel layout',
     'R1': 'volume-weighted coefficients of one interior face cancel between its two cells',
